@@ -62,11 +62,31 @@ wr := () -> int { c0 = 100; return 1 };
 it := [10, 20, 30, 40, 50, 60]~;
 rdint := (x: mut int) -> int { return *x };
 addto := (x: mut int, k: int) -> int { return x += k };
+px := mut any 0;
+py := mut any 0;
+px = py;
+py = px;
+fnlist := mut [() -> mut int] [];
+for i in [1, 2]~ { fnlist += [() -> mut int { return c0 }] };
+blk := () -> mut int { return { c0 } };
+apply := (x: mut int, k: int, which: int) -> int {
+    if which == 0 { return x += k }
+    if which == 1 { return x -= k }
+    if which == 2 { return x *= k }
+    if which == 3 { return x /= k }
+    if which == 4 { return x %= k }
+    if which == 5 { return x **= k }
+    if which == 6 { return x <<= k }
+    if which == 7 { return x >>= k }
+    if which == 8 { return x &= k }
+    if which == 9 { return x |= k }
+    return x ^= k
+};
 0
 "#;
 
 pub const CELLS: &[CellSpec] = &[
-    CellSpec { name: "c0", kind: Kind::Int, paths: &["c0", "a[0]", "a[1]", "t.1", "s.g", "g()", "idf(c0)", "viaarr([c0, m1])", "viaarr(a)", "([c0] + [m1])[0]", "[c0; 2][1]", "([c0]~ $])[0]", "struct{q := c0}.q", "(c0, 1).0", "[[c0]][0][0]", "a[-1]"], init: Val::Int(0) },
+    CellSpec { name: "c0", kind: Kind::Int, paths: &["c0", "a[0]", "a[1]", "t.1", "s.g", "g()", "idf(c0)", "viaarr([c0, m1])", "viaarr(a)", "([c0] + [m1])[0]", "[c0; 2][1]", "([c0]~ $])[0]", "struct{q := c0}.q", "(c0, 1).0", "[[c0]][0][0]", "a[-1]", "(*fnlist)[1]()", "blk()", "([c0]~ @ (x: mut int) -> mut int { return x } $])[0]", "([m1, c0]~ ? (x: mut int) -> bool { return x == c0 } $])[0]", "([c0]~ \\ (x: mut int) -> bool { return true }).0[0]", "([c0, 1]~ ? mut int $])[0]"], init: Val::Int(0) },
     CellSpec { name: "c1", kind: Kind::Float, paths: &["c1", "t.0"], init: Val::Float(0.5) },
     CellSpec { name: "c2", kind: Kind::Bool, paths: &["c2"], init: Val::Bool(true) },
     CellSpec { name: "c3", kind: Kind::Str, paths: &["c3", "t.2", "s.f"], init: Val::Str(String::new()) },
@@ -112,6 +132,13 @@ pub enum OpKind {
     ReadViaParam,
     /// compound add through a function parameter
     AddViaParam(i64),
+    /// compound assignment executed inside a function on parameters (run-time path: neither
+    /// operand is a constant): `apply(path, k, which)`
+    ApplyViaParam(String, i64),
+    /// the two cells px / py contain each other: rendering one walks into the other
+    PairShow(u8),
+    PairSet(u8, Val),
+    PairTie,
     /// an assignment the checker must refuse (invariance / content type); text given explicitly
     Attack(String),
 }
@@ -166,6 +193,10 @@ impl Op {
             OpKind::ReadViaParam => format!("rdint({p})"),
             OpKind::AddViaParam(k) => format!("addto({p}, {k})"),
             OpKind::Attack(text) => text.clone(),
+            OpKind::ApplyViaParam(op, k) => format!("apply({p}, {k}, {})", INT_OPS.iter().position(|o| o == op).unwrap_or(0)),
+            OpKind::PairShow(w) => format!("std.convert.to_string({})", if w % 2 == 0 { "px" } else { "py" }),
+            OpKind::PairSet(w, v) => format!("{} = {}", if w % 2 == 0 { "px" } else { "py" }, lit(v)),
+            OpKind::PairTie => "{ px = py; py = px; 0 }".to_string(),
         }
     }
 
@@ -220,6 +251,10 @@ fn kind_json(k: &OpKind) -> Value {
         OpKind::ReadViaParam => json!("read_via_param"),
         OpKind::AddViaParam(k) => json!({"add_via_param": k}),
         OpKind::Attack(t) => json!({"attack": t}),
+        OpKind::ApplyViaParam(op, k) => json!({"apply_via_param": [op, k]}),
+        OpKind::PairShow(w) => json!({"pair_show": w}),
+        OpKind::PairSet(w, v) => json!({"pair_set": [w, val_json(v)]}),
+        OpKind::PairTie => json!("pair_tie"),
     }
 }
 
@@ -234,6 +269,7 @@ fn kind_from_json(v: &Value) -> OpKind {
             "self_show" => OpKind::SelfShow,
             "self_tie" => OpKind::SelfTie,
             "read_via_param" => OpKind::ReadViaParam,
+            "pair_tie" => OpKind::PairTie,
             o => panic!("bad op kind {o}"),
         };
     }
@@ -247,6 +283,9 @@ fn kind_from_json(v: &Value) -> OpKind {
         "mk_fresh" => OpKind::MkFresh(x.as_u64().unwrap_or(0) as u8),
         "add_via_param" => OpKind::AddViaParam(x.as_i64().unwrap()),
         "attack" => OpKind::Attack(x.as_str().unwrap().to_string()),
+        "apply_via_param" => OpKind::ApplyViaParam(x[0].as_str().unwrap().to_string(), x[1].as_i64().unwrap()),
+        "pair_show" => OpKind::PairShow(x.as_u64().unwrap() as u8),
+        "pair_set" => OpKind::PairSet(x[0].as_u64().unwrap() as u8, val_from_json(&x[1])),
         o => panic!("bad op kind {o}"),
     }
 }
@@ -436,6 +475,16 @@ impl Model {
             OpKind::SelfSet(v) => Expect::Value(v.clone()),
             OpKind::SelfTie => Expect::Value(Val::Int(0)),
             OpKind::Attack(_) => Expect::Rejected,
+            OpKind::ApplyViaParam(o, k) => match compound(o, &self.heap[target], &Val::Int(*k)) {
+                Ok(r) => {
+                    self.heap[target] = r.clone();
+                    Expect::Value(r)
+                }
+                Err(e) => Expect::Error(e),
+            },
+            OpKind::PairShow(_) => Expect::Unchecked,
+            OpKind::PairSet(_, v) => Expect::Value(v.clone()),
+            OpKind::PairTie => Expect::Value(Val::Int(0)),
         }
     }
 }
@@ -487,10 +536,14 @@ pub fn gen_op(rng: &mut Rng, cfg: &GenCfg, unique: &mut i64) -> Op {
             return Op {
                 cell: 6,
                 path: 0,
-                kind: match rng.below(4) {
+                kind: match rng.below(9) {
                     0 => OpKind::SelfSet(Val::Int(next_unique())),
                     1 => OpKind::SelfTie,
-                    _ => OpKind::SelfShow,
+                    2 | 3 => OpKind::SelfShow,
+                    4 | 5 => OpKind::PairShow(rng.below(2) as u8),
+                    6 => OpKind::PairSet(rng.below(2) as u8, Val::Int(next_unique())),
+                    7 => OpKind::PairShow(rng.below(2) as u8),
+                    _ => OpKind::PairTie,
                 },
             };
         }
@@ -550,8 +603,18 @@ pub fn gen_op(rng: &mut Rng, cfg: &GenCfg, unique: &mut i64) -> Op {
                     OpKind::Show
                 } else if k < 90 {
                     OpKind::ReadViaParam
-                } else if k < 94 {
+                } else if k < 92 {
                     OpKind::AddViaParam(next_unique())
+                } else if k < 95 {
+                    let op = INT_OPS[rng.below(INT_OPS.len())];
+                    let operand = match op {
+                        "/" | "%" => [2i64, 3, -2, 0][rng.below(4)],
+                        "**" => [0i64, 1, 2, -1][rng.below(4)],
+                        "<<" | ">>" => [0i64, 1, 2, 64][rng.below(4)],
+                        "*" => [2i64, -1, 3][rng.below(3)],
+                        _ => next_unique(),
+                    };
+                    OpKind::ApplyViaParam(op.into(), operand)
                 } else if k < 97 && !cfg.concurrent {
                     OpKind::BumpViaRhs
                 } else {
@@ -678,4 +741,20 @@ pub const ATTACKS: &[&str] = &[
     "{ w := (k: ()-> mut any) -> int { k() = \"s\"; return 1 }; w(() -> mut int { return c0 }) }",
     "cc = c6",
     "c6 = c0; (*c6) = 1",
+    "{ w := (x: mut [int|float]) -> int { x += [0.5]; return 1 }; w(c4) }",
+    "{ w := (x: mut [any]) -> int { x = [\"s\"]; return 1 }; w(c4) }",
+    "{ w := (x: mut (int|string)) -> int { x = \"s\"; return 1 }; w(c0) }",
+    "{ w := (xs: [mut int|mut float]) -> int { xs[0] = 0.5; return 1 }; w([c0]) }",
+    "{ w := (s: struct{f: mut int|mut string}) -> int { s.f = \"s\"; return 1 }; w(struct{f := c0}) }",
+    "{ w := (x: mut float) -> int { x = 0.5; return 1 }; w(c0) }",
+    "{ w := (k: () -> mut (int|float)) -> int { k() = 0.5; return 1 }; w(g) }",
+    "{ w := (x: mut mut any) -> int { (*x) = \"s\"; return 1 }; w(cc) }",
+    "{ w := (x: mut mut any) -> int { x = c6; return 1 }; w(cc) }",
+    "a[0] = 0.5",
+    "t.1 = \"s\"",
+    "s.g += 0.5",
+    "(*cc) = 0.5",
+    "c5 = [1]",
+    "c2 = c2",
+    "c0 = c0",
 ];
